@@ -211,8 +211,9 @@ def gen_prog_case(rng):
     text = "\n".join([word_text(words[0])] + ["NOP"] * (L - 1))
     pokes = {str(i): w for i, w in enumerate(words) if i}
     for a in (4095, 4094, L, L + 1):
-        pokes[str(a)] = rng.choice([0, 1, 0xFFFF, 0x8000, rng.getrandbits(16), (0 << 12) | rng.randrange(L)])
-    return {"kind": "exec", "text": text, "pokes": pokes, "acc": rng.choice([0, 0, 1, 0xFFFF, 0x8000, rng.getrandbits(16)]), "max_steps": 120, "w0": words[0], "L": L, "drive": rng.choice(["step", "step", "halves", "single", "mixed"])}
+        # (value coincidences: a cell that holds its own address, the address of another cell, a copy of a program word)
+        pokes[str(a)] = rng.choice([0, 1, 0xFFFF, 0x8000, rng.getrandbits(16), (0 << 12) | rng.randrange(L), a, L, rng.choice(words)])
+    return {"kind": "exec", "text": text, "pokes": pokes, "acc": rng.choice([0, 0, 1, 0xFFFF, 0x8000, rng.getrandbits(16), L, L + 1, 4095, rng.choice(words)]), "max_steps": 120, "w0": words[0], "L": L, "drive": rng.choice(["step", "step", "halves", "single", "mixed"])}
 
 
 def gen_restore_case(rng):
